@@ -144,8 +144,8 @@ def q(v):
     for ch in v:
         if ch == '"' or ch == '\\':
             out.append('\\' + ch)
-        elif ch == '\n':
-            out.append('\\a ')
+        elif ord(ch) < 32 or ord(ch) == 127:
+            out.append('\\%x ' % ord(ch))
         else:
             out.append(ch)
     return '"' + ''.join(out) + '"'
@@ -159,6 +159,47 @@ def gen_attr_sel(r):
     v = r.choice(VALUES)
     flag = r.choice(['', '', '', ' i', ' s'])
     return f'[{name}{op}{q(v)}{flag}]'
+
+
+def swapcase_some(r, v):
+    return ''.join(ch.swapcase() if ch.isascii() and r.random() < 0.5 else ch for ch in v)
+
+
+def gen_attr_sel_for(r, els):
+    """An attribute selector derived from an attribute actually present on one of `els` (bs4 tags):
+    the operand is the whole value, a prefix, a suffix, an inner piece, a whitespace-separated word or
+    a dash prefix of it, optionally with mangled case and an i / s flag; so the comparison usually
+    succeeds or fails for a reason (newline before the matched part, case, word boundary)."""
+    cands = [(e, k, v) for e in els for k, v in e.attrs.items()]
+    if not cands:
+        return gen_attr_sel(r)
+    e, k, v = r.choice(cands)
+    whole = ' '.join(v) if isinstance(v, (list, tuple)) else v
+    if not isinstance(whole, str):
+        return gen_attr_sel(r)
+    op = r.choice(['=', '~=', '|=', '^=', '$=', '*=', '!='])
+    n = len(whole)
+    if op == '^=':
+        part = whole[:r.randint(0, n)]
+    elif op == '$=':
+        part = whole[r.randint(0, n):]
+    elif op == '*=':
+        a = r.randint(0, n)
+        part = whole[a:r.randint(a, n)]
+    elif op == '~=':
+        words = [w for w in __import__('re').split('[ \t\r\n\f]', whole)]
+        part = r.choice(words) if words else whole
+    elif op == '|=':
+        part = whole.split('-')[0] if r.random() < 0.7 else whole
+    else:
+        part = whole
+    if r.random() < 0.35:
+        part = swapcase_some(r, part)
+    flag = r.choice(['', '', ' i', ' s', 'i', ' I', ' S'])
+    if flag and flag[0] != ' ' and part and not part.isspace():
+        pass     # a flag directly after a quoted value is fine: the value is always quoted here
+    name = k if r.random() < 0.8 else swapcase_some(r, k)
+    return f'[{name}{op}{q(part)}{flag}]'
 
 
 STRUCT = [':root', ':empty', ':first-child', ':last-child', ':only-child',
@@ -253,7 +294,7 @@ def gen_control(r):
             attrs.append((name, r.choice(vals)))
     if x < 0.45:
         name = 'input'
-        maybe('type', INPUT_TYPES, 0.85)
+        maybe('type', INPUT_TYPES + ['radio'] * 6 + ['checkbox'] * 2 + ['RADIO'], 0.85)      # radio groups are what :indeterminate / :default scan
         maybe('name', ['g1', 'g2', '', 'g1'], 0.6)
         maybe('checked', ['', 'checked'], 0.3)
         maybe('value', ['', 'a', '5', RTL, '2020-01-01', '12:00'], 0.4)
@@ -334,11 +375,35 @@ def gen_form_tree(r, depth=0):
     return ('e', 'div', None, None, [], kids)
 
 
+def gen_head_kids(r):
+    """<meta>/<title>/<link> children of <head>: content-language declarations (complete, split over two
+    metas, attributes in either order), metas with multi-valued attributes (a list once parsed), and noise."""
+    kids = []
+    for _ in range(r.choice([0, 0, 1, 1, 2, 3])):
+        x = r.random()
+        attrs = []
+        if x < 0.45:
+            attrs = [(r.choice(['http-equiv', 'HTTP-EQUIV', 'http-equiv']), r.choice(['content-language', 'Content-Language', 'refresh', ''])),
+                     (r.choice(['content', 'CONTENT', 'content']), r.choice(['en', 'en-US', 'de', 'de-DE, en', '', 'fr-CA', '*']))]
+            if r.random() < 0.25:
+                attrs.pop(r.randint(0, 1))
+        elif x < 0.7:
+            attrs = [('name', r.choice(['viewport', 'generator', ''])), ('content', r.choice(['en', 'x', '']))]
+        if r.random() < 0.35:
+            attrs.append(('class', r.sample(CLASSES, r.randint(1, 2))))
+        if r.random() < 0.1:
+            attrs.append(('lang', r.choice(['en', 'de', ''])))
+        r.shuffle(attrs)
+        name = 'meta' if r.random() < 0.85 else r.choice(['title', 'link', 'META'])
+        kids.append(('e', name, None, None, attrs, [('t', 'T')] if name == 'title' else []))
+    return kids
+
+
 def gen_state_doc(r):
     kind = r.choice(['html', 'html', 'html5', 'xhtml', 'xml'])
     body_attrs = [('dir', r.choice(['ltr', 'rtl', 'auto']))] if r.random() < 0.3 else []
     body = ('e', 'body', None, None, body_attrs, [gen_form_tree(r)])
-    head = ('e', 'head', None, None, [], [])
+    head = ('e', 'head', None, None, [], gen_head_kids(r))
     html_attrs = [('dir', r.choice(['ltr', 'rtl', 'auto', 'x']))] if r.random() < 0.3 else []
     if r.random() < 0.3:
         html_attrs.append(('lang', r.choice(['en', 'de', ''])))
